@@ -79,6 +79,12 @@ func c06R(kind, name string) *introspectionTypeRef {
 	return &introspectionTypeRef{Kind: kind, Name: name}
 }
 
+// c06OrgKey: the services whose shadow Item is rebuilt from {id, org} instead of
+// {id} (their Item_InputObject lists both); when non-nil every service exposes
+// Item.org (validateFederationKeys demands it) and the input object of a
+// service is named after it (the key sets differ).
+var c06OrgKey map[string]bool
+
 type c06Builder struct {
 	service string
 	objs    map[string]*graphql.Object
@@ -122,8 +128,19 @@ func (b *c06Builder) federated(name string, rebuild func(id int64) interface{}) 
 	}
 	b.field(name, "_federation", o, c06R("OBJECT", name), func(src interface{}) (interface{}, error) { return src, nil })
 	inputName := name + "_InputObject"
+	nkeys := 1
 	input := &graphql.InputObject{Name: inputName, InputFields: map[string]graphql.Type{"id": &graphql.NonNull{Type: c06Int}}}
-	b.intro[inputName] = &introspectionType{Name: inputName, Kind: "INPUT_OBJECT", Fields: []introspectionField{}, InputFields: []introspectionInputField{{Name: "id", Type: c06NN(c06R("SCALAR", "int64"))}}, PossibleTypes: []*introspectionTypeRef{}, EnumValues: []introspectionEnumValue{}, Interfaces: []*introspectionTypeRef{}}
+	inFields := []introspectionInputField{{Name: "id", Type: c06NN(c06R("SCALAR", "int64"))}}
+	if name == "Item" && c06OrgKey != nil {
+		inputName = name + "_" + b.service + "_InputObject"
+		input.Name = inputName
+		if c06OrgKey[b.service] {
+			nkeys = 2
+			input.InputFields["org"] = &graphql.NonNull{Type: c06Int}
+			inFields = append(inFields, introspectionInputField{Name: "org", Type: c06NN(c06R("SCALAR", "int64"))})
+		}
+	}
+	b.intro[inputName] = &introspectionType{Name: inputName, Kind: "INPUT_OBJECT", Fields: []introspectionField{}, InputFields: inFields, PossibleTypes: []*introspectionTypeRef{}, EnumValues: []introspectionEnumValue{}, Interfaces: []*introspectionTypeRef{}}
 	fed := b.object("Federation")
 	fname := b.service + "_" + name
 	fed.Fields[fname] = &graphql.Field{
@@ -144,8 +161,14 @@ func (b *c06Builder) federated(name string, rebuild func(id int64) interface{}) 
 				if !ok {
 					return nil, errors.New("key: not an object")
 				}
-				if len(km) != 1 {
-					return nil, errors.New("key: unknown fields")
+				// a service only understands the key fields of its own shadow object
+				if len(km) != nkeys {
+					return nil, errors.New("key: fields other than this service's keys")
+				}
+				if nkeys == 2 {
+					if _, ok := km["org"]; !ok {
+						return nil, errors.New("key: org missing")
+					}
 				}
 				var id int64
 				switch n := km["id"].(type) {
@@ -200,6 +223,9 @@ func c06Service(service string, as c06Assign, d *c06Data) (*graphql.Schema, *Int
 	b.federated("Other", func(id int64) interface{} { return &c06Other{Id: id} })
 	item, sub, other := b.object("Item"), b.object("Sub"), b.object("Other")
 	intNN, intRef := &graphql.NonNull{Type: c06Int}, c06NN(c06R("SCALAR", "int64"))
+	if c06OrgKey != nil {
+		b.field("Item", "org", intNN, intRef, func(src interface{}) (interface{}, error) { return 1000 + src.(*c06Item).Id, nil })
+	}
 	if as.has("Item.a", service) {
 		b.field("Item", "a", intNN, intRef, func(src interface{}) (interface{}, error) { return d.a[src.(*c06Item).Id], nil })
 	}
@@ -227,6 +253,10 @@ func c06Service(service string, as c06Assign, d *c06Data) (*graphql.Schema, *Int
 		b.field("Query", "items", &graphql.NonNull{Type: &graphql.List{Type: item}}, c06NN(c06L(c06R("OBJECT", "Item"))), func(src interface{}) (interface{}, error) {
 			out := []*c06Item{}
 			for _, id := range d.items {
+				if id == 0 {
+					out = append(out, nil) // a null element
+					continue
+				}
 				out = append(out, &c06Item{Id: id})
 			}
 			return out, nil
@@ -553,11 +583,13 @@ func c06ChosenData(used map[string]bool) *c06Data {
 		}
 	}
 	if used["Query.items"] {
-		switch nondet.Choice("items", 3) {
+		switch nondet.Choice("items", 4) {
 		case 1:
 			d.items = []int64{}
 		case 2:
 			d.items = []int64{2, 1}
+		case 3:
+			d.items = []int64{0, 1} // the first element is null
 		}
 	}
 	return d
@@ -685,6 +717,49 @@ func VerifC06Items() { c06Check([]string{"items", "first"}, 2, 1, false, false) 
 
 // quick: a mutation returning an Item whose fields may live on another service
 func VerifC06Mutation() { c06Check([]string{"touch"}, 2, 1, false, false) }
+
+// VerifC06KeySets: three services; the owner hops to two services whose shadow
+// Items are rebuilt from different key sets ({id, org} and {id}); each service
+// rejects key fields that are not its own.
+func VerifC06KeySets() {
+	c06OrgKey = map[string]bool{"s2": true}
+	as := c06Assign{}
+	for _, f := range c06Movable {
+		as[f] = []string{"s1"}
+	}
+	as["Item.b"] = []string{"s2"}
+	as["Item.name"] = []string{"s3"}
+	switch nondet.Choice("third", 3) {
+	case 1:
+		as["Item.a"] = []string{"s3"}
+	case 2:
+		as["Item.sub"] = []string{"s3"}
+		as["Sub.c"] = []string{"s2"}
+	}
+	g := &c06Gen{used: map[string]bool{}}
+	text := g.query([]string{"items", "first"}, 1, 1)
+	text2 := "{ items { b name } }"
+	if nondet.Choice("fixed", 2) == 1 {
+		text = text2
+	}
+	d := c06ChosenData(g.used)
+	w := c06Setup([]string{"s1", "s2", "s3"}, as, d)
+	want, ok := w.reference(text)
+	nondet.Assert(ok, "generated-query-valid")
+	if !ok {
+		return
+	}
+	got, err := w.viaGateway(text)
+	nondet.Assert(err == nil, "gateway-answers")
+	if err != nil {
+		return
+	}
+	nondet.Assert(nondet.DeepEq(got, want), "same-json-as-combined")
+	if w.requests["s2"] > 0 && w.requests["s3"] > 0 {
+		nondet.Cover("two-hops")
+	}
+	nondet.Cover("answered")
+}
 
 // quick: the union root with 1 entry on Item
 func VerifC06Things() { c06Check([]string{"things"}, 1, 1, false, false) }
